@@ -338,7 +338,7 @@ def _xfilter(accumulator, test_range, condition, operating_range):
     from .operators import _get_type_id
     type_id, operator = _get_type_id(condition), LOGIC_OPERATORS[operator]
 
-    @functools.lru_cache()
+    @functools.lru_cache(typed=True)
     def check(value):
         return _get_type_id(value) == type_id and operator(value, condition)
 
